@@ -246,6 +246,24 @@ static char *vt_kindname(NodeKind kind) {
 #define VT_TYPE(node, l, r)
 #endif
 
+// The atomic builtins are compiled to one `lock cmpxchg` or `xchg`
+// on the object, so the object must be a scalar that fits a register.
+// The new value is converted to the object's type as if by assignment.
+static void check_atomic_operands(Node *addr, Node **val) {
+  if (addr->ty->kind != TY_PTR)
+    error_tok(addr->tok, "pointer expected");
+
+  Type *ty = addr->ty->base;
+  if (!is_integer(ty) && ty->kind != TY_PTR &&
+      ty->kind != TY_FLOAT && ty->kind != TY_DOUBLE)
+    error_tok(addr->tok, "atomic operation on an object of this type is not supported");
+
+  Type *vty = (*val)->ty;
+  if (!is_numeric(vty) && !vty->base && vty->kind != TY_FUNC)
+    error_tok((*val)->tok, "scalar value expected");
+  *val = new_cast(*val, ty);
+}
+
 void add_type(Node *node) {
   if (!node || node->ty)
     return;
@@ -390,14 +408,14 @@ void add_type(Node *node) {
     add_type(node->cas_new);
     node->ty = ty_bool;
 
-    if (node->cas_addr->ty->kind != TY_PTR)
-      error_tok(node->cas_addr->tok, "pointer expected");
+    check_atomic_operands(node->cas_addr, &node->cas_new);
     if (node->cas_old->ty->kind != TY_PTR)
       error_tok(node->cas_old->tok, "pointer expected");
+    if (node->cas_old->ty->base->size != node->cas_addr->ty->base->size)
+      error_tok(node->cas_old->tok, "pointer to an object of the same size expected");
     return;
   case ND_EXCH:
-    if (node->lhs->ty->kind != TY_PTR)
-      error_tok(node->lhs->tok, "pointer expected");
+    check_atomic_operands(node->lhs, &node->rhs);
     node->ty = node->lhs->ty->base;
     return;
   }
